@@ -146,12 +146,6 @@ impl vstd::std_specs::cmp::PartialEqSpecImpl for TypePath {
 //@end
 
 
-spec fn q_parent<'a>(ty: TypePath) -> spec_fn(&'a ParentAttr) -> bool {
-    |x: &ParentAttr| x.container_ty is None || ty_eq(x.container_ty->0, ty)
-}
-spec fn q_bare_parent<'a>(ty: TypePath) -> spec_fn(&'a ParentAttr) -> bool {
-    |x: &ParentAttr| x.child_fields is None && (x.container_ty is None || ty_eq(x.container_ty->0, ty))
-}
 
 //@fn attr.rs MemberAttrs::has_parent_attr
 //@props C03,C06
